@@ -2,7 +2,7 @@
 From Coq Require Import NArith List Bool.
 Import ListNotations.
 From DV Require Import Base.Outcome Base.Bytes Base.Lex Base.Names.
-From DV Require Import C17.Model C17.Proofs C18.Model C14.Gen C14.Model C14.Proofs C14.ProofsDenial C14.ProofsSig C14.ProofsL2H C14.ModelN3 C14.ProofsN3 C14.ModelChain C14.ProofsChain C14.ModelDs C14.ProofsDs C14.ModelTa C14.ProofsTa C14.ModelWild C14.ProofsWild.
+From DV Require Import C17.Model C17.Proofs C18.Model C14.Gen C14.Model C14.Proofs C14.ProofsDenial C14.ProofsSig C14.ProofsL2H C14.ModelN3 C14.ProofsN3 C14.ModelChain C14.ProofsChain C14.ModelDs C14.ProofsDs C14.ModelTa C14.ProofsTa C14.ModelWild C14.ProofsWild C14.ProofsDname.
 Local Open Scope N_scope.
 
 Theorem C14_nsec_in_range_spec : forall t o n,
@@ -329,3 +329,20 @@ Theorem C14_wildcard_answer_total : forall H ci cb sname st signer oce ngs n3gs,
   no_panic (wildcard_answer_state H ci cb sname st signer oce ngs n3gs).
 Proof. exact wildcard_answer_total. Qed.
 Print Assumptions C14_wildcard_answer_total.
+
+(* ---- DNAME: what may leave the answer section unvalidated *)
+Theorem C14_map_dname_keeps_prefix : forall owner dt p r, map_dname owner dt (p ++ owner) = Some r -> r = p ++ dt.
+Proof. exact map_dname_keeps_prefix. Qed.
+Print Assumptions C14_map_dname_keeps_prefix.
+
+Theorem C14_moved_to_dname_sound : forall cowner ctarget gs,
+  moved_to_dname cowner ctarget gs = true -> exists g, In g gs /\ synthesized_by cowner ctarget g.
+Proof. exact moved_to_dname_sound. Qed.
+Print Assumptions C14_moved_to_dname_sound.
+
+Theorem C14_removed_cname_is_exact_synthesis : forall gs g,
+  In g gs -> ~ In g (move_redundant_cnames gs) ->
+  a_rtype g = rt_CNAME /\ a_nrr g = 1 /\ a_signed g = false /\
+  exists t, a_cname g = Some t /\ exists d, In d gs /\ synthesized_by (a_owner g) t d.
+Proof. exact removed_cname_is_exact_synthesis. Qed.
+Print Assumptions C14_removed_cname_is_exact_synthesis.
